@@ -450,4 +450,68 @@ def acceptedOf : List TEvent → List (Nat × TSample)
 
 def TState.empty : TState := { queued := [], inflight := [], buf := [], stats := [] }
 
+/-! ## the configuration in front of the post-processor (`Driver.prepare_benchmark`) and the driver buffer under it
+
+`reporting/metrics.request.downsample.factor` (absent = 1) is read once in `Driver.prepare_benchmark` and handed to the
+`SamplePostprocessor`; `Driver.update_samples` appends EVERY sample of every `UpdateSamples` message to `raw_samples`
+whatever the factor is; in `SamplePostprocessor.__call__` the factor selects the samples that get latency / service-time /
+processing-time records (`idx % factor == 0`), the calculator gets the complete batch. -/
+
+/-- `int(config.opts("reporting", "metrics.request.downsample.factor", mandatory=False, default_value=1))` -/
+def downsampleFactor (opt : Option Nat) : Nat := opt.getD 1
+
+/-- `for idx, sample in enumerate(raw_samples): if idx % factor == 0`, `idx` starting at `i` -/
+def everyNthFrom {α : Type} (f : Nat) : Nat → List α → List α
+  | _, [] => []
+  | i, x :: xs => if i % f = 0 then x :: everyNthFrom f (i + 1) xs else everyNthFrom f (i + 1) xs
+
+/-- the samples of one batch that get request-metric records -/
+def requestMetricSamples {α : Type} (f : Nat) (raw : List α) : List α := everyNthFrom f 0 raw
+
+/-- a race with the option set to `opt`: per post-processing run (samples with request-metric records, throughput records);
+    state = (`raw_samples` buffer, calculator) -/
+def driverRunCfg (opt : Option Nat) (buf : List (Nat × TSample)) (stats : List (Nat × TaskStats)) :
+    List DEvent → (List (Nat × TSample) × List (Nat × TaskStats)) × List (List (Nat × TSample) × List (Nat × Out))
+  | [] => ((buf, stats), [])
+  | .update samples :: evs => driverRunCfg opt (buf ++ samples) stats evs
+  | .postProcess :: evs =>
+    let r := postprocess stats buf
+    let r2 := driverRunCfg opt [] r.1 evs
+    (r2.1, (requestMetricSamples (downsampleFactor opt) buf, r.2) :: r2.2)
+
+/-! ## the throttling wait in front of a request (`AsyncExecutor.__call__`, target throughput)
+
+`expected_scheduled_time` comes from the schedule (0 = not throttled).  A throttled client sleeps until
+`total_start + expected_scheduled_time` if that lies ahead (`rest > 0`) and does not sleep at all when it is behind
+schedule; AFTER that the wall clock is read (`absolute_processing_start = time.time()`), which becomes the sample's
+`absolute_time` — the time the calculator derives the elapsed time of the task from. -/
+
+/-- performance counter at `processing_start`; `free` = performance counter when the schedule hands out the request -/
+def throttleStart (totalStart free expected : Rat) : Rat :=
+  if expected > 0 then
+    (if totalStart + expected - free > 0 then free + (totalStart + expected - free) else free)
+  else free
+
+/-- one scheduled request: its `expected_scheduled_time` and how long it takes from `processing_start` until the
+    client asks the schedule for the next one -/
+structure SchedReq where
+  expected : Rat
+  busy : Rat
+
+/-- the requests of one client, one after the other: (performance counter at `processing_start`, when the client is free again) -/
+def clientRun (totalStart : Rat) : Rat → List SchedReq → List (Rat × Rat)
+  | _, [] => []
+  | free, q :: qs =>
+    let s := throttleStart totalStart free q.expected
+    (s, s + q.busy) :: clientRun totalStart (s + q.busy) qs
+
+/-- the clock readings of a request that started at performance counter `s` (request sent `lat` later, answered after `svc`) -/
+def reqClockAt (epoch totalStart samplerStart s lat svc : Rat) : ReqClock :=
+  { epoch := epoch, totalStart := totalStart, samplerStart := samplerStart, processingStart := s,
+    requestStart := s + lat, requestEnd := s + lat + svc }
+
+def sumBusy : List SchedReq → Rat
+  | [] => 0
+  | q :: qs => q.busy + sumBusy qs
+
 end Throughput
